@@ -377,7 +377,7 @@ impl<'a> Gen<'a> {
     }
 
     fn undefined_name(&mut self) -> String {
-        self.rng.pick(&["nope", "missing_var", "undefined_x", "user.nope", "m.absent", "nope.deeper"]).to_string()
+        self.rng.pick(&["nope", "missing_var", "undefined_x", "user.nope", "m.absent", "nope.deeper", "loop.index", "loop.last"]).to_string()
     }
 
     // ---------------------------------------------------------------- expressions
@@ -1020,6 +1020,12 @@ impl<'a> Gen<'a> {
             8 => {
                 inner.vars.push((v.clone(), Kind::Int));
                 (format!("for {} in range(end={})", v, self.rng.pick(&["n_small", "3", "0", "5"])), 6)
+            }
+            _ if self.rng.chance(1, 4) => {
+                // `loop.*` in the iterable itself: refers to the enclosing loop, or to nothing
+                inner.vars.push((v.clone(), Kind::Any));
+                let it = self.rng.pick(&["loop.index", "arr_i[loop.index0:]", "[y for y in arr_i if y > loop.length]", "range(end=loop.length)", "[loop.first, loop.last]", "s_any[:loop.index]"]);
+                (format!("for {} in {}", v, it), 40)
             }
             _ => {
                 inner.vars.push((v.clone(), Kind::Any));
